@@ -153,6 +153,7 @@ for k in ('C01', 'C04', 'C06', 'C17'):
 FILL = " Write-buffer fill sweep (X3): the subject's codec is filled to every level around 'full' by blocking the transport, the control frames it then owes (%s) become due, the transport opens: each owed frame must appear exactly once, in order, and nothing else may change."
 CLAIMS['C03']['text'] += FILL % "WINDOW_UPDATEs for released octets on streams and connection"
 CLAIMS['C05']['text'] += FILL % "REFUSED_STREAM resets for streams over the limit" + " Server model also: responding with a body and connection polls with the transport blocked."
+CLAIMS['C05']['text'] += " Push, both ways: a client that advertises a limit of 1 receives two PUSH_PROMISEs and their responses (the second pushed stream must be refused, never surfaced as a second open stream; model shared with C19); a server whose peer allows 0 / 1 / 2 / many concurrent streams pushes up to 3-4 streams with open-ended responses, ends / resets / drops them, the peer resets them and moves its limit - the wire monitor counts the server's own (pushed) streams against the acknowledged limit, and once the limit is lifted every promise nobody cancelled has been announced, answered and ended."
 CLAIMS['C14']['text'] += FILL % "SETTINGS ACKs and PING ACKs, one per frame received, in order"
 CLAIMS['C15']['text'] += FILL % "the GOAWAY pair of a graceful shutdown, the GOAWAY of an abrupt one" + " The server model also lets the peer send WINDOW_UPDATE / DATA END_STREAM on the last accepted stream and on a stream racing the GOAWAY (a shutdown must not turn into a connection error)."
 CLAIMS['C17']['text'] += FILL % "RST_STREAMs for application resets and for stream errors" + " GOAWAY surfacing on handles (code, origin, debug data) is judged here for the client model of C15."
